@@ -255,7 +255,7 @@ type permStats struct {
 func (ps *permStats) report(r *vk.Run, pc permCase, perms []permShape, c *callee) {
 	ps.mu.Lock()
 	defer ps.mu.Unlock()
-	if pc.Got == "allowed" && pc.Want == "denied" && groupRootCause(perms, c, pc.Method) {
+	if pc.Got == "allowed" && pc.Want == "denied" && !strings.Contains(pc.Sub, "after-restart") && !strings.Contains(pc.Note, "stack item") && !strings.Contains(pc.Note, "StackItem") && groupRootCause(perms, c, pc.Method) {
 		ps.rootCause++
 		ps.rootBySub[pc.Sub]++
 		// keep the simplest witness of each sub-check: fewest permissions, earliest
@@ -286,17 +286,33 @@ func (pw *permWorld) pure(r *vk.Run, ps *permStats) {
 			r.Violation("permission:perm-pure:manifest-json-roundtrip:"+cs.String(), err.Error())
 			continue
 		}
+		// copies that went through the stored form (what a restarted node loads)
+		m3, m4 := new(manifest.Manifest), manifest.Manifest{}
+		bad := false
+		for k, pair := range [][2]*manifest.Manifest{{m, m3}, {&m2, &m4}} {
+			it, err := pair[0].ToStackItem()
+			if err == nil {
+				err = pair[1].FromStackItem(it)
+			}
+			if err != nil {
+				r.Violation(fmt.Sprintf("permission:perm-pure:manifest-stackitem-roundtrip-%d:%s", k, cs.String()), err.Error())
+				bad = true
+			}
+		}
+		if bad {
+			continue
+		}
 		for _, c := range pw.callees {
 			for _, md := range c.Methods {
 				want := allowedBy(cs.Perms, c, md.Name)
-				for i, mm := range []*manifest.Manifest{m, &m2} {
+				for i, mm := range []*manifest.Manifest{m, &m2, m3, &m4} {
 					got := mm.CanCall(c.Hash, c.Mf, md.Name)
 					ps.mu.Lock()
 					ps.pure++
 					ps.mu.Unlock()
 					if got != want {
 						ps.report(r, permCase{Sub: "perm-pure", Caller: cs, Callee: c.Name, Groups: c.Groups, Method: md.Name, Safe: md.Safe,
-							Got: verdict(got), Want: verdict(want), Note: fmt.Sprintf("Manifest.CanCall (copy %d)", i)}, cs.Perms, c)
+							Got: verdict(got), Want: verdict(want), Note: "Manifest.CanCall on " + []string{"the built manifest", "its JSON round trip", "its stack item round trip", "JSON then stack item round trip"}[i]}, cs.Perms, c)
 					} else {
 						r.Outcome("perm-pure:" + verdict(got))
 					}
@@ -304,7 +320,12 @@ func (pw *permWorld) pure(r *vk.Run, ps *permStats) {
 				if len(cs.Perms) == 1 {
 					p := pw.realPerm(cs.Perms[0])
 					got := p.IsAllowed(c.Hash, c.Mf, md.Name)
-					ps.pure++
+					var p2 manifest.Permission
+					if err := p2.FromStackItem(p.ToStackItem()); err != nil || p2.IsAllowed(c.Hash, c.Mf, md.Name) != want {
+						ps.report(r, permCase{Sub: "perm-pure", Caller: cs, Callee: c.Name, Groups: c.Groups, Method: md.Name, Safe: md.Safe,
+							Got: verdict(!want), Want: verdict(want), Note: fmt.Sprintf("Permission.IsAllowed after ToStackItem/FromStackItem (err=%v)", err)}, cs.Perms, c)
+					}
+					ps.pure += 2
 					if got != want {
 						ps.report(r, permCase{Sub: "perm-pure", Caller: cs, Callee: c.Name, Groups: c.Groups, Method: md.Name, Safe: md.Safe,
 							Got: verdict(got), Want: verdict(want), Note: "Permission.IsAllowed"}, cs.Perms, c)
